@@ -42,6 +42,12 @@ func registry() map[string]*Rule {
 		{Name: "COD2", Floor: 3, Run: ruleCOD2, Doc: "the library uses only msgpack.Marshal/Unmarshal/RegisterExt (default, type-preserving configuration)"},
 		{Name: "ADP1", Floor: 1, Run: ruleADP1, Doc: "every store.Tx.Get implementation maps the backend's not-found outcome to (nil, nil) before the generic error test"},
 		{Name: "ADP2", Floor: 8, Run: ruleADP2, Doc: "no method of a store.Cursor implementation branches on the value component of the backend cursor position or of store.Item"},
+		{Name: "IMM1", Floor: 8, Run: ruleIMM1, Doc: "every store to a field of Query/UnaryCriteria/BinaryCriteria/NotCriteria targets an object allocated (literal or copy()) in the same function"},
+		{Name: "IMM2", Floor: 4, Run: ruleIMM2, Doc: "DB fields are written only during construction or through sync/atomic (and then read atomically); no package-level variable is written after init; go statements are inventoried"},
+		{Name: "GUARD1", Floor: 10, Run: ruleGUARD1, Doc: "in every operation naming a collection or query, the first store access after Begin on every path is the catalog lookup"},
+		{Name: "IDX5", Floor: 3, Run: ruleIDX5, Doc: "index creation writes the catalog after feeding a criteria-less scan into the new index; index drop drops entries before rewriting the catalog; collection drop bulk-deletes before deleting the catalog key"},
+		{Name: "ADP3", Floor: 10, Run: ruleADP3, Doc: "backend (bbolt/badger) APIs are called only inside the store adapter packages"},
+		{Name: "OPS3", Floor: 2, Run: ruleOPS3, Doc: "Neq is Not(Eq) and NotExists is Not(Exists), built on the builder's own arguments"},
 	}
 	m := map[string]*Rule{}
 	for _, r := range rules {
@@ -65,12 +71,146 @@ var commonAssumptions = []string{
 }
 
 func propertyTable() map[string]*Property {
+	const tSSA = "static analysis: "
 	return map[string]*Property{
+		"C01": {
+			Technique:   tSSA + "SSA guard/dominance analysis of the scan paths, key-template abstract interpretation, type-tag abstract interpretation of the comparator, operator/table extraction",
+			Rules:       []string{"PLAN1", "KEY1", "KEY2", "CMP1", "CMP2", "CMP3", "CMP4", "OPS1", "TX2", "ID1"},
+			Explanation: "Decides structural clauses of C01 on every path of the current source: every candidate from every scan path is re-filtered with the query's full criteria (PLAN1); no scan can leave its own key family, so no document is yielded through a sibling's keys (KEY1, KEY2); the comparator behind the criteria ranks types in the documented order (CMP1), has no wrap-around arithmetic (CMP2), dispatches every pair of canonical dynamic types to a return (CMP3), only ever sees normalised operands (CMP4); every operator that can be constructed is evaluated (OPS1); records are replaced whole, under their own id, inside one committed transaction (TX2, ID1).",
+			NotDecided:  "That Criteria.Satisfy computes the documented truth value for every document and criteria tree (absent-field semantics, In/Contains/Like value logic); history dependence. These quantify over values and histories.",
+			Assumptions: commonAssumptions,
+		},
+		"C02": {
+			Technique:   tSSA + "SSA guard analysis of the planner (re-filter, And-only intersection, negation push-down closure), finite table extraction, index-maintenance dominance, key-template analysis",
+			Rules:       []string{"PLAN1", "PLAN2", "PLAN3", "PLAN6", "IDX1", "IDX2", "KEY1", "KEY2", "KEY3", "VIS1"},
+			Explanation: "Decides structural clauses of C02: index candidates are always re-checked against the full criteria (PLAN1); ranges of the two sides are intersected only under a conjunction and no range is produced for a disjunction or below a surviving negation (PLAN2, PLAN3); the negation push-down never returns an unvisited child (PLAN3); the two finite tables Not(op)->complement and op->range equal the mathematical ones row by row (PLAN6, decided completely); index entries follow every document write/delete, and old entries are located before a user updater may mutate the document (IDX1, IDX2); an index scan sees exactly its own entries and add/remove use one key layout (KEY1-KEY3); planning visitors cannot return a value their callers' unchecked assertions reject (VIS1).",
+			NotDecided:  "That a derived range contains every matching value for all values (nil bounds, Range.IsEmpty, inclusive ends in reverse scans), and that sort elision is taken only when the index order equals the requested order. Value-level.",
+			Assumptions: commonAssumptions,
+		},
+		"C03": {
+			Technique:   tSSA + "effect summaries over closures passed to scans (snapshot-then-apply), cursor-adapter branch analysis, transaction rules",
+			Rules:       []string{"IDX4", "ADP2", "TX2", "TX3", "IDX1", "IDX2"},
+			Explanation: "Decides structural clauses of C03: no consumer of a live scan performs a destructive store write, i.e. the query is evaluated completely before the first update/delete is applied, and the updater runs at loop depth <= 1 on the collected documents (IDX4); cursor validity on either backend never depends on an entry's value, so entries with empty values do not end a traversal (ADP2); the bulk operation is one committed transaction (TX2, TX3) and maintains every index for each document it rewrites (IDX1, IDX2).",
+			NotDecided:  "B+tree/LSM cursor behaviour itself, page layouts and collection sizes (runtime quantities; once IDX4 holds they no longer matter for the bulk path); that the set collected equals FindAll's for all data.",
+			Assumptions: commonAssumptions,
+		},
 		"C04": {
-			Technique:   "static analysis: SSA dominance + effect summaries (transaction release/commit discipline, error-flow rules)",
-			Rules:       []string{"TX1", "TX2", "TX3", "ERR1", "ERR2", "ERR3"},
-			Explanation: "Decides structural clauses of C04 on every path of the current source: every transaction is released on every exit (TX1, no wedged handle), no store effect is acknowledged without Commit and Commit is the last act (TX2), no public operation spans two write transactions so no committed prefix can be left behind (TX3), and no store/plan error is dropped or converted into success (ERR1-ERR3).",
+			Technique:   tSSA + "SSA dominance + effect summaries (transaction release/commit discipline), error-flow rules, guard ordering",
+			Rules:       []string{"TX1", "TX2", "TX3", "ERR1", "ERR2", "ERR3", "ID2", "GUARD1"},
+			Explanation: "Decides structural clauses of C04 on every path of the current source: every transaction is released on every exit (TX1: no wedged handle); no store effect is acknowledged without Commit, and Commit is the last act (TX2); no public operation spans two write transactions, so no committed prefix can be left behind by a later failure (TX3); no store/plan error is dropped or converted into success (ERR1-ERR3); validity and duplicate checks precede the write, the catalog lookup precedes every other store access (ID2, GUARD1).",
 			NotDecided:  "The stores' own rollback semantics (trusted); enumeration of the k-th failing store call at run time; errors inside bbolt/badger.",
+			Assumptions: commonAssumptions,
+		},
+		"C05": {
+			Technique:   tSSA + "SSA dominance + longest-path transaction counting over the call summaries",
+			Rules:       []string{"TX1", "TX2", "TX3", "IDX1", "IDX3"},
+			Explanation: "Decides the structural fact C05 itself names: every public write operation is exactly one store transaction (TX3), committed as its last action on every success path with every other exit rolling back (TX1, TX2), and documents, index entries, the counter and the catalog are written through that same transaction (IDX1, IDX3 - all writes go through the tx value of the single opener).",
+			NotDecided:  "Durability and crash atomicity of a committed bbolt/badger transaction (trusted base: the stores), fsync options, any actual kill/reopen. No crash is simulated.",
+			Assumptions: commonAssumptions,
+		},
+		"C06": {
+			Technique:   tSSA + "index-maintenance dominance, counter-evidence dataflow, key-template analysis of drop/scan bounds",
+			Rules:       []string{"IDX1", "IDX2", "IDX3", "IDX5", "KEY1", "KEY2", "KEY3", "TX2"},
+			Explanation: "Decides structural clauses of C06: every document write/delete is paired with index maintenance over all catalog indexes (IDX1), with old entries taken before user code can mutate the document (IDX2); the counter moves only with evidence and is written back (IDX3); index creation feeds every document into the new index and drop removes through a bound that covers exactly the index's own keys; collection drop goes through the bulk delete and removes the catalog key (IDX5, KEY1-KEY3).",
+			NotDecided:  "The arithmetic equality Count == number of records over arbitrary histories (IDX3 gives the necessary discipline per site, not the sum).",
+			Assumptions: commonAssumptions,
+		},
+		"C07": {
+			Technique:   tSSA + "shared-state inventory (stores to handle fields/globals, go statements), immutability of query values, one-transaction-per-operation counting",
+			Rules:       []string{"TX3", "IMM1", "IMM2", "TX4", "TX1"},
+			Explanation: "Decides structural clauses of C07: each operation is one store transaction, the only atomicity mechanism there is (TX3, TX1); the handle has no unsynchronised mutable state - DB fields are written only at construction or through sync/atomic, no package-level variable is written after init, the only goroutine is the reviewed badger GC loop (IMM2); queries and criteria are immutable values (IMM1); read operations cannot write (TX4).",
+			NotDecided:  "Linearizability of histories, the isolation the stores provide, badger conflict handling, the race detector's verdict: schedules are runtime.",
+			Assumptions: commonAssumptions,
+		},
+		"C08": {
+			Technique:   tSSA + "plan-pipeline type flow, sort-option normalisation dataflow, callback-loop error rules, comparator arithmetic check",
+			Rules:       []string{"PLAN4", "PLAN5", "ERR3", "CMP2", "CMP1"},
+			Explanation: "Decides structural clauses of C08: the sort node never follows the skip/limit node (PLAN4: the window is cut from the ordered sequence); sort directions are normalised to +-1 and Sort() defaults to a literal (PLAN5); a limit stops the emission behind a sort and the stop does not leak (ERR3); the comparator the sort uses has no wrap-around and the documented type ranking (CMP2, CMP1).",
+			NotDecided:  "That windows are exactly [n, n+m), tie handling, multi-key order, correctness of sort elision and of reverse index scans. Narrow claim, stated as such.",
+			Assumptions: commonAssumptions,
+		},
+		"C09": {
+			Technique:   tSSA + "immutability dataflow, read-operation transaction rule, callback-loop rules, counter discipline",
+			Rules:       []string{"IMM1", "TX4", "ERR3", "IDX3", "KEY3", "NIL1"},
+			Explanation: "Decides structural clauses of C09: no builder or operation writes to a query/criteria object it was given (IMM1); read operations open read-only transactions or never commit (TX4: they cannot alter the database); ForEach's stop request ends every loop, also behind a sort node (ERR3); the counter Count relies on moves only with evidence (IDX3); FindById reads the key layout Insert writes (KEY3); results of (nil, err) helpers are not dereferenced (NIL1).",
+			NotDecided:  "Numeric agreement of Count's skip/limit arithmetic with a scan; FindFirst = first element of FindAll; these are value-level.",
+			Assumptions: commonAssumptions,
+		},
+		"C10": {
+			Technique:   tSSA + "type-tag abstract interpretation of TypeId/Compare/OrderedCode over the 9x9 canonical type pairs, arithmetic-pattern check, key-template order check",
+			Rules:       []string{"CMP1", "CMP2", "CMP3", "KEY4"},
+			Explanation: "Decides structural clauses of C10: the type ranking is nil < number < string < object < array < bool < time with single-digit ranks (CMP1, decided completely by abstract evaluation of TypeId on each canonical type); the comparator contains no subtraction of unbounded integers and no unguarded sign conversion (CMP2: no overflow-induced sign errors at the int64/uint64/time extremes); for all 81 pairs of canonical dynamic types Compare reaches a return, never a failing assertion, and different classes are ordered by rank alone (CMP3); in index keys the rank precedes the encoded value and both come from the same value (KEY4).",
+			NotDecided:  "Transitivity as such, lexicographic container order, and agreement between Compare and the orderedcode byte order (-0.0, float widening, times before 1970): statements about an encoding function's values.",
+			Assumptions: commonAssumptions,
+		},
+		"C11": {
+			Technique:   tSSA + "call-graph reachability between codec entry points and time transformers, msgpack API whitelist",
+			Rules:       []string{"COD1", "COD2"},
+			Explanation: "Decides structural clauses of C11: the time wrapper is unreachable from Decode and the unwrapper from Encode, and each transformer recurses into itself for map and slice elements (COD1: times inside arrays and inside objects nested in arrays come back as time.Time); the library uses msgpack only through Marshal/Unmarshal/RegisterExt, i.e. the default type-preserving configuration (COD2).",
+			NotDecided:  "msgpack's own fidelity for every value (trusted library), zone offsets and the gob encoding of times, deep equality of values.",
+			Assumptions: commonAssumptions,
+		},
+		"C12": {
+			Technique:   tSSA + "SSA value identity between saved document and key, guard analysis of validation/probe/id-assignment",
+			Rules:       []string{"ID1", "ID2", "ID3", "TX2"},
+			Explanation: "Decides structural clauses of C12: a record is stored under a key built from its own ObjectId(), or only after an equality test between its ObjectId() and the id the key was built from (ID1: no update can make a document reachable under a foreign key); every Tx.Set of a document is behind document.Validate and every save behind a nil test of Tx.Get on the same key or on scan-produced documents (ID2: malformed and duplicate ids are rejected, not overwritten); a generated id is assigned only when _id is absent or empty (ID3); a rejected insert commits nothing (TX2).",
+			NotDecided:  "Uniqueness of generated UUIDs; behaviour over histories.",
+			Assumptions: commonAssumptions,
+		},
+		"C13": {
+			Technique:   tSSA + "key-template abstract interpretation (family disjointness, delimiter-terminated bounds), guard ordering, adapter not-found mapping",
+			Rules:       []string{"KEY1", "KEY2", "KEY3", "GUARD1", "ADP1", "TX2"},
+			Explanation: "Decides structural clauses of C13: catalog keys, document keys and index keys are pairwise distinct layouts, every name is ';'-terminated inside a key, and every scan bound covers exactly one layout and ends in a delimiter - so collections whose names are prefixes of each other, and documents sharing ids, cannot see each other's keys (KEY1-KEY3); every operation looks the collection up in the catalog before any other store access (GUARD1) and a missing key is (nil, nil) on both backends (ADP1); nothing is committed on the error paths (TX2).",
+			NotDecided:  "Catalog contents over histories of create/drop.",
+			Assumptions: commonAssumptions,
+		},
+		"C14": {
+			Technique:   tSSA + "key-template abstract interpretation of the per-index prefix, nil-dereference guard analysis, guard ordering",
+			Rules:       []string{"KEY1", "KEY2", "NIL1", "GUARD1", "IDX5", "VIS1"},
+			Explanation: "Decides structural clauses of C14: the per-index prefix used by iteration and drop ends in the separator, so indexes on x / xy and on n / n.a never read or delete each other's entries (KEY1, KEY2); ListIndexes/HasIndex on a missing collection report the error without dereferencing the absent metadata (NIL1, GUARD1); index creation and drop update entries and catalog in the required order (IDX5); the index-selection visitor satisfies its callers' unchecked assertions (VIS1).",
+			NotDecided:  "Catalog list arithmetic (swap-remove in DropIndex) over histories.",
+			Assumptions: commonAssumptions,
+		},
+		"C15": {
+			Technique:   tSSA + "sibling cross-check of the store adapters (not-found mapping, cursor validity), error rules inside adapters",
+			Rules:       []string{"ADP1", "ADP2", "ADP3", "ERR1", "ERR2"},
+			Explanation: "Decides structural clauses of C15: both Tx.Get implementations map absence to (nil, nil) (ADP1); no Cursor implementation makes position validity depend on the value, so keys with empty values are visible on both backends (ADP2); only the adapter packages call the backend APIs (ADP3); adapters drop or convert no backend error other than the not-found mapping (ERR1, ERR2).",
+			NotDecided:  "Everything else: equality of the results of identical histories on two backends and the seek contract for all key sets are runtime comparisons (DESIGN §6 lists a reverse-seek defect this family does not reach).",
+			Assumptions: commonAssumptions,
+		},
+		"C16": {
+			Technique:   tSSA + "taint-style dataflow of Compare operands, operator constant tables, builder/evaluator type agreement",
+			Rules:       []string{"CMP4", "OPS1", "OPS2", "OPS3", "CMP5"},
+			Explanation: "Decides structural clauses of C16: every operand of the comparison is a document value or has passed through Normalize, which is the only mechanism behind 'a literal yields the same result whatever Go numeric type it was supplied as' (CMP4, CMP5); every constructed operator has an evaluation case and routed operators are covered by the inner switch (OPS1); the Go type each builder stores is the type the evaluator asserts (OPS2); Neq and NotExists are defined as Not() of Eq and Exists on the same arguments (OPS3).",
+			NotDecided:  "The truth tables of And/Or/Not, In and Contains themselves (statements about values; checking their shape would be a frozen-fragment proxy, so it is not done).",
+			Assumptions: commonAssumptions,
+		},
+		"C17": {
+			Technique:   tSSA + "key-template analysis of seek targets and scan bounds, error and callback-loop rules in the range index",
+			Rules:       []string{"KEY1", "KEY2", "KEY3", "ERR1", "ERR3"},
+			Explanation: "Decides structural clauses of C17: a range scan or full iteration is bounded by a prefix that covers exactly the index's own entries, add and remove use one layout (KEY1-KEY3); seek and item errors are propagated (ERR1); the scan stops when the consumer asks and the stop does not escape (ERR3).",
+			NotDecided:  "Bound arithmetic: inclusive/exclusive ends, emptiness and intersection of ranges over values, order of the yielded ids.",
+			Assumptions: commonAssumptions,
+		},
+		"C18": {
+			Technique:   tSSA + "reflect.Kind switch table extraction and return-type classification of Normalize",
+			Rules:       []string{"CMP5"},
+			Explanation: "Decides structural clauses of C18: Normalize's kind switch has a case for every integer width, both floats, string, bool, struct, map, slice and array, and the value returned under each case has the canonical static type (signed->int64, unsigned->uint64, floats->float64, struct/map->map[string]interface{}, slice/array->[]interface{}); every other return is nil or a pass-through pinned by clover's own tests; Document.Set touches the document only when normalisation succeeded (an unsupported value leaves it unchanged).",
+			NotDecided:  "Idempotence, Set/Get/Has path laws, struct round trips, pointer following (DESIGN §6 lists a pointer-to-time defect out of reach).",
+			Assumptions: commonAssumptions,
+		},
+		"C19": {
+			Technique:   tSSA + "read-operation transaction rule, one-transaction rule for the import composite, guard and error rules",
+			Rules:       []string{"TX4", "TX3", "GUARD1", "ERR1"},
+			Explanation: "Decides structural clauses of C19: ExportCollection reaches only read-only transactions, so it cannot modify the source (TX4); ImportCollection is one write transaction that creates and fills the collection, so a failing import (existing name, invalid document, store error) commits nothing (TX3, with TX1/TX2 through C04); the existence check comes first and no error on the way is dropped (GUARD1, ERR1).",
+			NotDecided:  "Value equality after JSON typing; file-system failures while writing the export file.",
+			Assumptions: commonAssumptions,
+		},
+		"C20": {
+			Technique:   tSSA + "unchecked-assertion/visitor-return agreement, nil-dereference guards, type-tag abstract interpretation for dispatch panics, explicit panic inventory, transaction leak rules",
+			Rules:       []string{"VIS1", "NIL1", "OPS1", "OPS2", "CMP3", "CMP4", "CMP5", "PANIC1", "TX1", "TX3"},
+			Explanation: "Decides structural clauses of C20: no visitor returns a value its callers' unchecked assertions reject (VIS1); no (nil, err) result is dereferenced before the error test (NIL1); no constructible operator falls into a panic or a mismatching assertion (OPS1, OPS2); the type dispatch of Compare/OrderedCode reaches no failing assertion for any pair of canonical types and only normalised operands arrive (CMP3, CMP4, CMP5); every explicit panic site is tied to the rule that makes it unreachable (PANIC1); no transaction is leaked or nested, the two ways to block for ever (TX1, TX3).",
+			NotDecided:  "Absence of every runtime panic (index/slice bounds inside dependencies, the regexp engine, a null element in an import file), and behaviour after Close on custom stores.",
 			Assumptions: commonAssumptions,
 		},
 	}
